@@ -340,7 +340,12 @@ def R5_credit(run):
                             is_param(g[2][0], "fee_growth_inside_" + side) and arg_name(g[2][1]) == "fee_growth_checkpoint_" + side
             run.check("R5", "owed_%s@%s" % (side, short), ok, "%s: fee_owed_%s := %s; expected owed.wrapping_add(checked_mul_shift_right(liquidity, inside_%s.wrapping_sub(checkpoint_%s)).unwrap_or(0))" % (
                 path, side, [sh(x, 160) for x in ow], side, side), loc=fn.loc(), detail="owed_%s += floor(liquidity * (inside_%s - checkpoint_%s) >> 64), overflow -> 0" % (side, side, side))
-        # rewards
+        # rewards (field stores into the update slot, or a whole PositionRewardInfo literal stored into it)
+        if not got.get("growth_inside_checkpoint") and not got.get("amount_owed"):
+            for adt_ in [a for a in facts.adts if a.endswith("::PositionRewardInfo")]:
+                for w in writes.struct_writes(facts, fn, pv, adt_):
+                    if w["how"] == "literal":
+                        got.setdefault(w["field"], []).append(strip(w["val"]))
         gc = got.get("growth_inside_checkpoint", [])
         ao = got.get("amount_owed", [])
         ok = len(gc) == 1 and len(ao) == 1
